@@ -34,11 +34,12 @@ pub fn draw_cfg(seed: u64) -> Config {
 }
 
 fn max_len(r: &mut Rng) -> usize {
-    match r.below(10) {
-        0..=3 => 24,
-        4..=6 => 72,
-        7..=8 => 400,
-        _ => 4096,
+    match r.below(40) {
+        0..=14 => 24,
+        15..=26 => 72,
+        27..=34 => 400,
+        35..=38 => 4100,
+        _ => 66000, // rare: crosses every 16-bit boundary
     }
 }
 
@@ -66,7 +67,7 @@ fn partition(r: &mut Rng, content: &[u8], k: usize) -> Vec<Vec<u8>> {
 
 fn dst_content(r: &mut Rng, kind: DstKind, maxl: usize, violate: bool) -> Vec<u8> {
     let (min, div) = kind.rule();
-    let mut len = if div == 1 { min + ctor::gen_len(r, maxl) } else { min + div * ctor::gen_len(r, (maxl / div).max(2)).min(40) };
+    let mut len = if div == 1 { min + ctor::gen_len(r, maxl) } else { min + div * ctor::gen_len(r, (maxl / div).max(2)).min(3000) };
     if violate {
         // break the kind's shape: below the minimum, or off the divisor
         if min > 0 && r.chance(1, 2) {
@@ -92,10 +93,12 @@ fn gen_c16(r: &mut Rng) -> Vec<Op> {
     let maxl = max_len(r);
     let precondition_rate = if r.chance(1, 4) { 3 } else { 0 };
     // swarm: a subset of kinds per run
-    let mut kinds: Vec<DstKind> = DstKind::ALL.iter().copied().filter(|_| r.chance(1, 2)).collect();
+    let boxable = &DstKind::ALL[..DstKind::BOXABLE];
+    let mut kinds: Vec<DstKind> = boxable.iter().copied().filter(|_| r.chance(1, 2)).collect();
     if kinds.is_empty() {
-        kinds.push(*r.pick(&DstKind::ALL));
+        kinds.push(*r.pick(boxable));
     }
+    let w_parsed = if r.chance(1, 2) { r.range(1, 3) } else { 0 };
     let discipline = r.below(4); // 0 lifo, 1 fifo, 2 random, 3 hold to end
     let w_new = r.range(2, 6);
     let w_clone = r.range(1, 5);
@@ -104,17 +107,25 @@ fn gen_c16(r: &mut Rng) -> Vec<Op> {
     let mut next_slot = 0u64;
     let mut ops = Vec::with_capacity(n_ops);
     for _ in 0..n_ops {
-        let total = w_new + if live.is_empty() { 0 } else { w_clone + w_drop };
+        let total = w_new + w_parsed + if live.is_empty() { 0 } else { w_clone + w_drop };
         let x = r.below(total);
-        if x < w_new {
+        if x >= total - w_parsed {
+            let len = ctor::gen_len(r, maxl);
+            let dst = next_slot;
+            next_slot += 1;
+            live.push(dst);
+            ops.push(Op::new(OpKind::CloneParsed, vec![dst, r.below(4), r.scalar(32, 3), r.below(4)], vec![r.bytes(len)]));
+        } else if x < w_new {
             let kind = *r.pick(&kinds);
             let violate = r.below(64) < precondition_rate;
             let content = dst_content(r, kind, maxl, violate);
-            let k = match r.below(8) {
-                0 => 0,
-                1..=3 => 1,
-                4..=5 => 2,
-                _ => r.range(3, 6) as usize,
+            let k = match r.below(16) {
+                0..=1 => 0,
+                2..=7 => 1,
+                8..=10 => 2,
+                11..=13 => r.range(3, 6) as usize,
+                14 => r.range(7, 12) as usize,
+                _ => r.range(13, 40) as usize,
             };
             let slices = partition(r, &content, k);
             let dst = next_slot;
@@ -177,14 +188,21 @@ fn gen_c07(r: &mut Rng) -> Vec<Op> {
 }
 
 fn gen_c06(r: &mut Rng) -> Vec<Op> {
-    let knobs = GenKnobs { max_len: max_len(r).min(1600), precondition_rate: if r.chance(1, 5) { 2 } else { 0 } };
+    let knobs = GenKnobs { max_len: max_len(r), precondition_rate: if r.chance(1, 5) { 2 } else { 0 } };
     let density = r.range(1, 8);
     let mut ctors: Vec<Ctor> = ctor::MBI_SLOT_CTORS.iter().copied().filter(|_| r.chance(density, 8)).collect();
     if ctors.is_empty() && r.chance(3, 4) {
         ctors.push(*r.pick(ctor::MBI_SLOT_CTORS));
     }
     let n_builders = if r.chance(1, 6) { 2 } else { 1 };
-    let n_sets = if ctors.is_empty() { 0 } else { r.below(31) as usize };
+    let n_sets = if ctors.is_empty() {
+        0
+    } else if r.chance(1, 12) {
+        r.range(31, 90) as usize // many tags: the builder's internal Vec grows several times
+    } else {
+        r.below(31) as usize
+    };
+    let dup_rate = if r.chance(1, 3) { r.range(1, 3) } else { 0 };
     // repeat-call probability: high → many overrides and long repeatable lists
     let favourite = if ctors.is_empty() { None } else { Some(*r.pick(&ctors)) };
     let repeat_bias = r.below(4);
@@ -193,8 +211,17 @@ fn gen_c06(r: &mut Rng) -> Vec<Op> {
         ops.push(Op::new(OpKind::MbiNew, vec![b], vec![]));
     }
     for _ in 0..n_sets {
-        let c = if repeat_bias > 0 && r.below(4) < repeat_bias { favourite.unwrap() } else { *r.pick(&ctors) };
         let b = r.below(n_builders);
+        // identical content supplied again (same slot): de-duplication,
+        // sorting or caching "optimisations" must not change the result
+        let sets: Vec<usize> = (0..ops.len()).filter(|&i| ops[i].kind == OpKind::MbiSet).collect();
+        if !sets.is_empty() && r.below(8) < dup_rate {
+            let mut dup = ops[*r.pick(&sets)].clone();
+            dup.a[0] = b;
+            ops.push(dup);
+            continue;
+        }
+        let c = if repeat_bias > 0 && r.below(4) < repeat_bias { favourite.unwrap() } else { *r.pick(&ctors) };
         ops.push(construct_op(OpKind::MbiSet, b, c, r, &knobs));
     }
     let mut next = 10u64;
@@ -214,7 +241,7 @@ fn gen_c06(r: &mut Rng) -> Vec<Op> {
 }
 
 fn gen_c12(r: &mut Rng) -> Vec<Op> {
-    let knobs = GenKnobs { max_len: max_len(r).min(1600), precondition_rate: 0 };
+    let knobs = GenKnobs { max_len: max_len(r), precondition_rate: 0 };
     let density = r.range(1, 8);
     let mut ctors: Vec<Ctor> = ctor::HDR_SLOT_CTORS.iter().copied().filter(|_| r.chance(density, 8)).collect();
     if ctors.is_empty() && r.chance(3, 4) {
@@ -362,7 +389,19 @@ pub fn directed(prop: Prop) -> Vec<Trace> {
     let mut traces: Vec<Vec<Op>> = Vec::new();
     match prop {
         Prop::C16 => {
-            for kind in DstKind::ALL {
+            for hk in 0..4u64 {
+                for len in 0..=9usize {
+                    for f0 in [0u64, 0xDEAD_BEEF] {
+                        traces.push(vec![
+                            Op::new(OpKind::CloneParsed, vec![0, hk, f0, len as u64], vec![pattern(len, hk as u8)]),
+                            Op::new(OpKind::CloneDyn, vec![1, 0], vec![]),
+                            Op::new(OpKind::DropObj, vec![0], vec![]),
+                            Op::new(OpKind::CloneDyn, vec![2, 1], vec![]),
+                        ]);
+                    }
+                }
+            }
+            for kind in DstKind::ALL.into_iter().take(DstKind::BOXABLE) {
                 let (min, div) = kind.rule();
                 let lens: Vec<usize> = if div == 1 { (0..=9).map(|j| min + j).collect() } else { (0..=3).map(|j| min + j * div).collect() };
                 for len in lens {
@@ -491,4 +530,50 @@ pub fn directed(prop: Prop) -> Vec<Trace> {
         .enumerate()
         .map(|(i, ops)| Trace { property: prop.id().to_string(), cfg: cfgs[i % cfgs.len()], ops })
         .collect()
+}
+
+/// The 22 builder slots in declaration order, one constructor each.
+const SLOT_ORDER: [Ctor; 22] = [
+    Ctor::Cmdline,
+    Ctor::BootLoaderName,
+    Ctor::Module,
+    Ctor::BasicMeminfo,
+    Ctor::Bootdev,
+    Ctor::Mmap,
+    Ctor::Vbe,
+    Ctor::Framebuffer,
+    Ctor::ElfSections,
+    Ctor::Apm,
+    Ctor::Efi32,
+    Ctor::Efi64,
+    Ctor::Smbios,
+    Ctor::RsdpV1,
+    Ctor::RsdpV2,
+    Ctor::Network,
+    Ctor::EfiMmapFromDescs,
+    Ctor::EfiBsNew,
+    Ctor::Efi32Ih,
+    Ctor::Efi64Ih,
+    Ctor::ImageLoadAddr,
+    Ctor::Custom,
+];
+
+/// C06: the trace that sets exactly the slots of subset number `idx`.
+/// `idx → mask` multiplies by an odd constant modulo 2^22: a bijection, so a
+/// prefix of the index range is a well-spread sample and the full range is
+/// every subset exactly once.
+pub fn subset_trace(prop: Prop, idx: u64) -> Option<Trace> {
+    if prop != Prop::C06 || idx >= 1 << 22 {
+        return None;
+    }
+    let mask = (idx.wrapping_mul(0x9E37_79B1)) & ((1 << 22) - 1);
+    let mut ops = vec![Op::new(OpKind::MbiNew, vec![0], vec![])];
+    for (i, &c) in SLOT_ORDER.iter().enumerate() {
+        if mask & (1 << i) != 0 {
+            ops.push(marker_op(OpKind::MbiSet, 0, c, ((mask >> 3) as usize + i) % 9, false));
+        }
+    }
+    ops.push(Op::new(OpKind::MbiBuild, vec![10, 0], vec![]));
+    let cfgs = directed_cfgs();
+    Some(Trace { property: prop.id().to_string(), cfg: cfgs[(mask % cfgs.len() as u64) as usize], ops })
 }
